@@ -187,11 +187,20 @@ pub fn draw_h(rng: &mut Rng, d: &Dg) -> Dg {
         3 => {
             // one extra arc that D lacks
             let mut h = d.clone();
-            let missing: Vec<(usize, usize)> = verts
-                .iter()
-                .flat_map(|&u| verts.iter().map(move |&w| (u, w)))
-                .filter(|&(u, w)| u != w && !d.a.contains(&(u, w)))
-                .collect();
+            let missing: Vec<(usize, usize)> = if n > 300 {
+                let (u, w) = (verts[rng.below(n)], verts[rng.below(n)]);
+                if u != w && !d.a.contains(&(u, w)) {
+                    vec![(u, w)]
+                } else {
+                    vec![]
+                }
+            } else {
+                verts
+                    .iter()
+                    .flat_map(|&u| verts.iter().map(move |&w| (u, w)))
+                    .filter(|&(u, w)| u != w && !d.a.contains(&(u, w)))
+                    .collect()
+            };
             if !missing.is_empty() {
                 let _ = h.a.insert(*rng.pick(&missing));
             }
@@ -226,7 +235,7 @@ pub fn draw_h(rng: &mut Rng, d: &Dg) -> Dg {
         6 => d.converse(),
         _ => {
             let m = if contiguous { rng.range(1, n + 2) } else { n };
-            let p = draw_density(rng);
+            let p = if n > 300 { 2 } else { draw_density(rng) };
             let r = random_dg(rng, m, p);
             if contiguous || m != n {
                 r
@@ -293,7 +302,10 @@ impl Lane for C12 {
             Tier::Thorough => 48,
         };
         let max = if rng.chance(1, 5) { max } else { max.min(16) };
-        let n = if rng.chance(1, 40) {
+        let n = if rng.chance(1, 250) {
+            // rows of the bit matrix spanning nine and more words
+            *rng.pick(&[577, 578, 640, 641, 704, 705, 1000, 1024, 1088])
+        } else if rng.chance(1, 40) {
             // bit-matrix rows that start on a word boundary
             *rng.pick(&[64, 128, 192, 256])
         } else if rng.chance(1, 3) {
@@ -301,7 +313,35 @@ impl Lane for C12 {
         } else {
             draw_order(rng, max)
         };
-        let mut d = if n >= 3 && (n % 64 == 0 && rng.chance(1, 2) || rng.chance(1, 30)) {
+        let mut d = if n > 300 {
+            // giants stay sparse and structured (the model's predicates are quadratic in the arc count)
+            let mut g = match rng.below(5) {
+                0 => Dg::circuit(n),
+                1 => Dg::cycle(n),
+                2 => Dg::star(n),
+                3 => Dg::empty(n),
+                _ => {
+                    let k = rng.range(1, 5);
+                    let mut c = Dg::empty(n);
+                    for u in 0..n {
+                        for j in 1..=k {
+                            let _ = c.a.insert((u, (u + j) % n));
+                        }
+                    }
+                    c
+                }
+            };
+            // optionally one nudge at a structured position
+            if rng.chance(1, 2) {
+                let k = rng.range(5, 10);
+                let u = ((1usize << k) + rng.below(3)).saturating_sub(1).min(n - 2);
+                let w = if rng.chance(1, 2) { u + 1 } else { rng.below(n) };
+                if u != w && !g.a.remove(&(u, w)) {
+                    let _ = g.a.insert((u, w));
+                }
+            }
+            g
+        } else if n >= 3 && (n % 64 == 0 && rng.chance(1, 2) || rng.chance(1, 30)) {
             // size-preserving defects confined to one residue class of the column index
             let ds: Vec<usize> = [1usize, 2, 8, 16, 32, 64, 128, 192].iter().copied().filter(|&x| x < n).collect();
             let dist = *rng.pick(&ds);
